@@ -325,6 +325,7 @@ def run(fx, rep, tier, shares=True):
         o["rule"] = "C19-R6"
         rep.obls.append(o)
     r7_unit_exponent(facts, rep)
+    r8_compound_display(facts, rep)
 
 
 # ---- the exponent of a displayed unit ----------------------------------------------------------------------------------
@@ -459,3 +460,118 @@ def r7_unit_exponent(facts, rep, rule="C19-R7"):
             gots.add(tuple(e[1].v if isinstance(e[1], Const) else repr(e[1]) for e in dom.log(o.store) if e[0] == "char"))
         rep.ob(rule, "exponent:%d" % p, gots == {tuple(want)},
                "power %d is written as %s (expected %r)" % (p, ["".join(chr(c) if isinstance(c, int) else "?" for c in g) for g in gots], "".join(chr(c) for c in want)), body.site())
+
+
+# ---- the text of a compound unit ----------------------------------------------------------------------------------------
+def _compound_display_run(facts, body, signs, plural):
+    """Summary of compound::Display::fmt over a unit map with len(signs) entries whose powers have the given signs."""
+    from ..absint.term import EffectDomain
+    from ..absint.stdmodels import Seq, it_list
+    entries = []
+    for i, sg in enumerate(signs):
+        st_ = Agg("adt", "compound::State", 0, "State", (Const(2 * sg), Sym("prefix%d" % i)))
+        entries.append(Agg("tuple", None, None, None, (Sym("unit%d" % i), st_)))
+    names = Seq(tuple(entries))
+
+    def oracle(dom, it, name, args, vals, store):
+        m = name.rsplit("::", 1)[-1]
+        v0 = vals[0] if vals else None
+        if isinstance(v0, Seq) and ("BTreeMap" in name or "btree_map" in name or "btree::map" in name):
+            if m in ("iter", "into_iter"):
+                return [(it_list(v0.items), store)]
+            if m == "values":
+                return [(it_list(tuple(e.field(1) for e in v0.items)), store)]
+            if m == "keys":
+                return [(it_list(tuple(e.field(0) for e in v0.items)), store)]
+            if m == "len":
+                return [(Const(len(v0.items)), store)]
+            if m == "is_empty":
+                return [(Const(not v0.items), store)]
+        if name == "unit::Unit::display" and len(vals) == 4:
+            return [(T("unit-display", vals[0], vals[1], vals[2], vals[3]), store)]
+        if name.endswith(" as std::fmt::Display>::fmt") and len(vals) == 2 and isinstance(vals[0], T) and vals[0].op == "unit-display":
+            return [(ok(UNIT), dom.with_log(store, ("unit",) + tuple(vals[0].args))), (err(Sym("fmt_error")), dom.with_log(store, ("fail",)))]
+        if name.endswith("::write_char") and len(vals) == 2:
+            c = vals[1]
+            return [(ok(UNIT), dom.with_log(store, ("lit", chr(c.v) if isinstance(c, Const) and isinstance(c.v, int) else repr(c)))),
+                    (err(Sym("fmt_error")), dom.with_log(store, ("fail",)))]
+        if name.endswith("::write_str") and len(vals) == 2:
+            return [(ok(UNIT), dom.with_log(store, ("lit", vals[1].v if isinstance(vals[1], Const) else repr(vals[1])))),
+                    (err(Sym("fmt_error")), dom.with_log(store, ("fail",)))]
+        if name.endswith("::write_fmt") and len(vals) == 2:
+            f = vals[1]
+            tpl = f.args[0].v if isinstance(f, T) and f.op == "fmt" and isinstance(f.args[0], Const) else None
+            if tpl is not None and all(isinstance(x, str) for x in tpl):
+                return [(ok(UNIT), dom.with_log(store, ("lit", "".join(tpl)))), (err(Sym("fmt_error")), dom.with_log(store, ("fail",)))]
+        return None
+    dom = EffectDomain({}, oracle=oracle)
+    dom.uninterp = lambda n: facts.fn(n) is None
+    it = core.Interp(facts, dom, budget=120000)
+    cadt = facts.adt("compound::Compound")
+    dadt = facts.adt("compound::Display")
+    comp = Agg("adt", "compound::Compound", 0, "Compound", tuple(names if "BTreeMap" in f["ty"] else TOP for f in cadt["variants"][0]["fields"]))
+    st, cref = it.fresh_slot({}, comp)
+    dvals = tuple(cref if "compound::Compound" in f["ty"] else (Const(plural) if f["ty"] == "bool" else TOP) for f in dadt["variants"][0]["fields"])
+    st, dref = it.fresh_slot(st, Agg("adt", "compound::Display", 0, "Display", dvals))
+    return dom, it.run(body, [dref, Sym("f")], st)
+
+
+def r8_compound_display(facts, rep, rule="C19-R8"):
+    rep.rule(rule, "the text of a compound unit (summary of compound::Display::fmt over unit maps with 0..3 entries of every sign "
+                   "pattern, pluralize on and off): the units with a non-negative power in map order, each through "
+                   "Unit::display(state, plural, 1) and joined by '⋅' - plural only for a sole such unit and only if asked; then, "
+                   "iff a power is negative, '/' and those units in map order through Unit::display(state, false, -1), joined by '⋅'")
+    hits = [b for b in facts.all if b.promoted < 0 and b.path.startswith("<compound::Display") and b.path.endswith(" as std::fmt::Display>::fmt")]
+    if len(hits) != 1 or facts.adt("compound::Display") is None:
+        rep.ob(rule, "anchor:compound::Display::fmt", False, "the Display impl of compound::Display was not found")
+        return
+    body = hits[0]
+    import itertools
+    n = 0
+    for k in range(0, 4):
+        for signs in itertools.product((1, -1), repeat=k):
+            for plural in (True, False):
+                key = "units:%s:plural=%s" % ("".join("+" if s_ > 0 else "-" for s_ in signs) or "none", plural)
+                try:
+                    dom, outs = _compound_display_run(facts, body, signs, plural)
+                except core.Undecided as e:
+                    rep.ob(rule, key, False, "undecided: %s" % e, body.site())
+                    continue
+                pos = [i for i, s_ in enumerate(signs) if s_ > 0]
+                neg = [i for i, s_ in enumerate(signs) if s_ < 0]
+                want = []
+                for j, i in enumerate(pos):
+                    want.append(("unit", "unit%d" % i, bool(plural and len(pos) == 1 and j == 0), 1))
+                    if j + 1 < len(pos):
+                        want.append(("lit", "⋅"))
+                if neg:
+                    want.append(("lit", "/"))
+                    for j, i in enumerate(neg):
+                        want.append(("unit", "unit%d" % i, False, -1))
+                        if j + 1 < len(neg):
+                            want.append(("lit", "⋅"))
+                bad = []
+                n_ok = 0
+                for o in outs:
+                    if o.kind != "ret":
+                        bad.append("%s %s" % (o.kind, str(o.value)[:60]))
+                        continue
+                    log = dom.log(o.store)
+                    if any(e[0] == "fail" for e in log):
+                        continue
+                    if not (isinstance(o.value, Agg) and o.value.vi == 0):
+                        continue
+                    n_ok += 1
+                    got = []
+                    for e in log:
+                        if e[0] == "unit":
+                            u_, st_, pl_, n_ = e[1], e[2], e[3], e[4]
+                            st_ok = isinstance(st_, Agg) and repr(st_.field(1)) == "prefix" + repr(u_)[4:]
+                            got.append(("unit", repr(u_), bool(pl_.v) if isinstance(pl_, Const) else repr(pl_), n_.v if isinstance(n_, Const) else repr(n_)) if st_ok else ("unit", repr(u_) + " with another unit's state", None, None))
+                        elif e[0] == "lit":
+                            got.append(("lit", e[1]))
+                    if got != want:
+                        bad.append("prints %s; specified %s" % (got, want))
+                n += 1
+                rep.ob(rule, key, not bad and n_ok >= 1, "; ".join(sorted(set(bad))[:2]) if bad else "as specified (%d path(s))" % n_ok, body.site())
+    rep.floor(rule, "sign patterns x pluralize", n, 30)
